@@ -1,60 +1,76 @@
 -------------------------------- MODULE Recv --------------------------------
 (***************************************************************************)
 (* Implementation-shaped specification of the INBOUND side of the client:  *)
-(*   publish_rec_op   (impl/publish_rec_op.hpp): PUBACK / PUBREC / wait    *)
-(*                    PUBREL / PUBCOMP, message stored only after the      *)
-(*                    final acknowledgement was written, every error of a  *)
-(*                    write other than try_again on PUBCOMP abandons the   *)
-(*                    exchange                                              *)
-(*   replies          PUBREL waiters keyed by packet id, fast replies      *)
-(*                    discarded at the next write, duplicate waiter        *)
-(*                    replaces the old one, pending PUBRELs dropped when   *)
-(*                    the session is not resumed                           *)
-(* with a conformant broker acting as QoS 1/2 sender (retransmission of    *)
-(* PUBLISH(DUP) / PUBREL on a resumed session) and a network that loses    *)
-(* connections.                                                            *)
+(*   publish_rec_op   (impl/publish_rec_op.hpp): one operation per received *)
+(*                    PUBLISH; PUBACK / PUBREC / wait PUBREL / PUBCOMP; the *)
+(*                    message is stored only after the final acknowledge-  *)
+(*                    ment was written; an error of the PUBACK / PUBREC     *)
+(*                    write abandons the exchange, try_again on the PUBCOMP *)
+(*                    write makes the operation wait for PUBREL again       *)
+(*   replies          PUBREL waits keyed by PACKET IDENTIFIER and owned by  *)
+(*                    an operation (= a message); a PUBREL nobody waits for *)
+(*                    is kept as a fast reply until the next write starts;  *)
+(*                    a second wait for the same identifier replaces the    *)
+(*                    first (KeepOldWaiter = TRUE: the seeded change r3-c04)*)
+(*   client_service / update_session_state() drops the PUBREL waits of a    *)
+(*   async_sender     lost session; resend() THEN completes the queued      *)
+(*                    writes with try_again, which re-arms the wait of an   *)
+(*                    exchange whose PUBCOMP was queued; since fix F15 the  *)
+(*                    waits are dropped once more after that                *)
+(*                    (ClearAfterRequeue = FALSE: the code before the fix)  *)
+(* with a conformant broker acting as QoS 1/2 sender (it gives a message    *)
+(* the lowest packet identifier it is not using, retransmits PUBLISH(DUP) / *)
+(* PUBREL on a resumed session, forgets everything in flight when the       *)
+(* session is lost) and a network that loses connections.                   *)
 (*                                                                         *)
-(* C04 as invariants: a QoS 2 message is stored at most once; PUBCOMP      *)
-(* never without PUBREL; once nothing more can happen every exchange the   *)
-(* broker completed has been stored (QoS 1 at least once, QoS 2 exactly    *)
-(* once) and no PUBREL is left unanswered.                                 *)
+(* C04 as invariants: a QoS 2 message is stored at most once; once nothing  *)
+(* more can happen every exchange the broker completed has been stored (QoS *)
+(* 1 at least once, QoS 2 exactly once) and no PUBREL is left unanswered.   *)
 (*                                                                         *)
-(* LossyWrites = TRUE lets a client write whose bytes reached the broker fail (a   *)
-(* its bytes reached the broker (a gather-write cut short by a reset).     *)
-(* With it TLC finds the recorded findings F5 / F10 (known_findings.json); *)
-(* with FALSE every invariant holds.                                       *)
+(* LossyWrites = TRUE lets a client write fail although its bytes reached   *)
+(* the broker (a gather-write cut short by a reset): TLC then finds the     *)
+(* recorded findings F5 / F10 (known_findings.json).                        *)
 (***************************************************************************)
 EXTENDS Integers, Sequences, FiniteSets, TLC, Json
 
 CONSTANTS
-    NMsgs,        \* broker messages 1..NMsgs; message m uses packet id m
+    NMsgs,        \* broker messages 1..NMsgs
     QosOf,        \* <<1, 2, ...>>
     MaxFaults,
     SessionLoss,  \* TRUE: a reconnect may come with Session Present = 0
-    LossyWrites
+    LossyWrites,
+    ClearAfterRequeue,
+    KeepOldWaiter
 
 Msgs == 1..NMsgs
+Pids == 1..NMsgs
 
 VARIABLES
     bst,      \* broker, per message: "new" | "sent" | "rel" | "done" | "lost"
+    pid,      \* broker, per message: its packet identifier (0: none yet)
     up,       \* connection is up
-    b2c,      \* packets in flight to the client: [t, m]   t \in {"PUBLISH","PUBREL"}
-    wr,       \* client write in progress: << >> or <<[t, m]>>   t \in {"PUBACK","PUBREC","PUBCOMP"}
+    b2c,      \* packets in flight to the client: [t, m, p]   t \in {"PUBLISH","PUBREL"}
+    wr,       \* client write in progress: << >> or <<[t, m, p]>>   t \in {"PUBACK","PUBREC","PUBCOMP"}; m = the operation's message
     dlv,      \* its bytes have reached the broker (the broker may answer before the write completion handler runs)
     wq,       \* client writes queued behind it
-    waiters,  \* packet ids with a PUBREL waiter (replies::_handlers)
-    fast,     \* PUBREL fast replies (replies::_fast_replies)
+    waiters,  \* PUBREL waits: set of [p, m]  (identifier waited for, message of the operation that waits)
+    rearm,    \* waits that resend() will re-arm on the next connection (operations whose PUBCOMP write did not go out)
+    fast,     \* identifiers with a PUBREL kept as fast reply
     stored,   \* per message: number of times it was put into the receive channel
     faults,
-    relUnanswered,  \* ghost: PUBRELs delivered to the client on the current connection and not yet answered by PUBCOMP
+    relUnanswered,  \* ghost: identifiers whose PUBREL was delivered to the client on this connection and not yet answered
     hist            \* the environment's choices so far (model-guided scenarios, tools/l3.py); hidden by VIEW NoHist
 
-vars == <<bst, up, b2c, wr, dlv, wq, waiters, fast, stored, faults, relUnanswered, hist>>
-NoHist == <<bst, up, b2c, wr, dlv, wq, waiters, fast, stored, faults, relUnanswered>>
+vars == <<bst, pid, up, b2c, wr, dlv, wq, waiters, rearm, fast, stored, faults, relUnanswered, hist>>
+NoHist == <<bst, pid, up, b2c, wr, dlv, wq, waiters, rearm, fast, stored, faults, relUnanswered>>
 
 Init ==
-    /\ bst = [m \in Msgs |-> "new"] /\ up = TRUE /\ b2c = << >> /\ wr = << >> /\ dlv = FALSE /\ wq = << >>
-    /\ waiters = {} /\ fast = {} /\ stored = [m \in Msgs |-> 0] /\ faults = 0 /\ relUnanswered = {} /\ hist = << >>
+    /\ bst = [m \in Msgs |-> "new"] /\ pid = [m \in Msgs |-> 0] /\ up = TRUE /\ b2c = << >> /\ wr = << >> /\ dlv = FALSE /\ wq = << >>
+    /\ waiters = {} /\ rearm = {} /\ fast = {} /\ stored = [m \in Msgs |-> 0] /\ faults = 0 /\ relUnanswered = {} /\ hist = << >>
+
+InFlight(st) == {m \in Msgs : st[m] \in {"sent", "rel"}}
+\* the broker's message that currently owns identifier p (0: none)
+Owner(st, p) == IF \E m \in InFlight(st) : pid[m] = p THEN CHOOSE m \in InFlight(st) : pid[m] = p ELSE 0
 
 ---------------------------------------------------------------------------
 (* client *)
@@ -67,100 +83,118 @@ StartWrites(q, w, f) ==
 Send(pkt) ==
     LET s == StartWrites(Append(wq, pkt), wr, fast) IN wr' = s.wr /\ wq' = s.wq /\ fast' = s.fast
 
+\* async_wait_reply(PUBREL, p) by the operation of message m
+Register(ws, p, m) ==
+    IF \E w \in ws : w.p = p
+      THEN IF KeepOldWaiter THEN ws                                               \* the new wait is refused (its operation ends)
+           ELSE {w \in ws : w.p # p} \cup {[p |-> p, m |-> m]}                    \* the old wait is aborted
+      ELSE ws \cup {[p |-> p, m |-> m]}
+
 \* read_message_op / assemble_op hand the next packet to the client
 ClientReads ==
     /\ up /\ b2c # << >>
-    /\ LET p == Head(b2c) IN
+    /\ LET k == Head(b2c) IN
        /\ b2c' = Tail(b2c)
-       /\ IF p.t = "PUBLISH" THEN
-              \* publish_rec_op::perform: answer per QoS (a fresh operation per received PUBLISH)
-              /\ Send([t |-> IF QosOf[p.m] = 1 THEN "PUBACK" ELSE "PUBREC", m |-> p.m])
+       /\ IF k.t = "PUBLISH" THEN
+              \* publish_rec_op::perform: a fresh operation per received PUBLISH
+              /\ Send([t |-> IF QosOf[k.m] = 1 THEN "PUBACK" ELSE "PUBREC", m |-> k.m, p |-> k.p])
               /\ UNCHANGED <<waiters, stored, relUnanswered>>
           ELSE \* PUBREL: replies::dispatch
-              /\ relUnanswered' = relUnanswered \cup {p.m}
-              /\ IF p.m \in waiters
-                   THEN /\ waiters' = waiters \ {p.m}
-                        /\ Send([t |-> "PUBCOMP", m |-> p.m])      \* on_pubrel -> send_pubcomp
-                   ELSE /\ fast' = fast \cup {p.m} /\ UNCHANGED <<waiters, wr, wq>>
+              /\ relUnanswered' = relUnanswered \cup {k.p}
+              /\ IF \E w \in waiters : w.p = k.p
+                   THEN LET w == CHOOSE w \in waiters : w.p = k.p IN
+                        /\ waiters' = waiters \ {w}
+                        /\ Send([t |-> "PUBCOMP", m |-> w.m, p |-> k.p])      \* on_pubrel of THE WAITING operation -> send_pubcomp
+                   ELSE /\ fast' = fast \cup {k.p} /\ UNCHANGED <<waiters, wr, wq>>
               /\ UNCHANGED stored
-    /\ UNCHANGED <<bst, up, faults, dlv>>
+    /\ UNCHANGED <<bst, pid, up, faults, dlv, rearm>>
     /\ hist' = Append(hist, [op |-> "read"])
 
-\* the broker's reaction to a client packet it received
+\* the broker's reaction to a client packet it received (it knows identifiers, not the client's operations)
 BrokerGets(pkt, st) ==
-    IF pkt.t = "PUBACK" /\ st[pkt.m] = "sent" THEN [st EXCEPT ![pkt.m] = "done"]
-    ELSE IF pkt.t = "PUBREC" /\ st[pkt.m] = "sent" THEN [st EXCEPT ![pkt.m] = "rel"]
-    ELSE IF pkt.t = "PUBCOMP" /\ st[pkt.m] = "rel" THEN [st EXCEPT ![pkt.m] = "done"]
+    LET o == Owner(st, pkt.p) IN
+    IF o = 0 THEN st
+    ELSE IF pkt.t = "PUBACK" /\ st[o] = "sent" /\ QosOf[o] = 1 THEN [st EXCEPT ![o] = "done"]
+    ELSE IF pkt.t = "PUBREC" /\ st[o] = "sent" /\ QosOf[o] = 2 THEN [st EXCEPT ![o] = "rel"]
+    ELSE IF pkt.t = "PUBCOMP" /\ st[o] = "rel" THEN [st EXCEPT ![o] = "done"]
     ELSE st
 
 \* the bytes of the write in progress reach the broker; it reacts at once (PUBREC -> PUBREL)
 Deliver ==
     /\ up /\ wr # << >> /\ ~dlv
-    /\ LET p == wr[1] IN
-       /\ bst' = BrokerGets(p, bst)
-       /\ b2c' = IF p.t = "PUBREC" /\ bst[p.m] = "sent" THEN Append(b2c, [t |-> "PUBREL", m |-> p.m]) ELSE b2c
-       /\ relUnanswered' = IF p.t = "PUBCOMP" THEN relUnanswered \ {p.m} ELSE relUnanswered
+    /\ LET k == wr[1]
+           o == Owner(bst, k.p) IN
+       /\ bst' = BrokerGets(k, bst)
+       /\ b2c' = IF k.t = "PUBREC" /\ o # 0 /\ bst[o] = "sent" /\ QosOf[o] = 2 THEN Append(b2c, [t |-> "PUBREL", m |-> o, p |-> k.p]) ELSE b2c
+       /\ relUnanswered' = IF k.t = "PUBCOMP" THEN relUnanswered \ {k.p} ELSE relUnanswered
     /\ dlv' = TRUE
-    /\ UNCHANGED <<up, wr, wq, waiters, fast, stored, faults>>
+    /\ UNCHANGED <<pid, up, wr, wq, waiters, rearm, fast, stored, faults>>
     /\ hist' = Append(hist, [op |-> "wdeliver"])
 
 \* the write completion handler runs: the operation continues, then the next write starts
 WriteOk ==
     /\ up /\ wr # << >> /\ dlv
-    /\ LET p == wr[1]
-           w1 == IF p.t = "PUBREC" /\ p.m \notin fast THEN waiters \cup {p.m} ELSE waiters   \* wait_pubrel
-           hitFast == p.t = "PUBREC" /\ p.m \in fast                                         \* fast reply consumed
-           q1 == IF hitFast THEN Append(wq, [t |-> "PUBCOMP", m |-> p.m]) ELSE wq
-           s == StartWrites(q1, << >>, IF hitFast THEN fast \ {p.m} ELSE fast)
+    /\ LET k == wr[1]
+           hitFast == k.t = "PUBREC" /\ k.p \in fast                                         \* fast reply consumed
+           w1 == IF k.t = "PUBREC" /\ ~hitFast THEN Register(waiters, k.p, k.m) ELSE waiters   \* wait_pubrel
+           q1 == IF hitFast THEN Append(wq, [t |-> "PUBCOMP", m |-> k.m, p |-> k.p]) ELSE wq
+           s == StartWrites(q1, << >>, IF hitFast THEN fast \ {k.p} ELSE fast)
        IN /\ waiters' = w1
-          /\ stored' = IF p.t \in {"PUBACK", "PUBCOMP"} THEN [stored EXCEPT ![p.m] = @ + 1] ELSE stored   \* complete(): channel_store
+          /\ stored' = IF k.t \in {"PUBACK", "PUBCOMP"} THEN [stored EXCEPT ![k.m] = @ + 1] ELSE stored   \* complete(): channel_store
           /\ wr' = s.wr /\ wq' = s.wq /\ fast' = s.fast
     /\ dlv' = FALSE
-    /\ UNCHANGED <<bst, b2c, relUnanswered, up, faults>>
+    /\ UNCHANGED <<bst, pid, b2c, relUnanswered, up, faults, rearm>>
     /\ hist' = Append(hist, [op |-> "wend"])
 
 \* the connection is lost.  The write in progress fails (delivered = whether its bytes reached the broker);
-\* everything queued and every waiter is told try_again by resend() after the reconnect.
+\* everything queued is told try_again by resend() after the reconnect.
 Fault(delivered) ==
     /\ up /\ faults < MaxFaults
     \* a write already delivered fails "although delivered" (LossyWrites); otherwise the failing write was not delivered
     /\ (delivered <=> (wr # << >> /\ dlv))
     /\ (delivered => LossyWrites)
-    /\ LET st1 == bst
-           all == wr \o wq
+    /\ LET all == wr \o wq
            \* try_again: PUBACK / PUBREC operations return (exchange abandoned), PUBCOMP waits for PUBREL again
-           back == {all[i].m : i \in {j \in DOMAIN all : all[j].t = "PUBCOMP"}}
-       IN /\ bst' = st1
-          /\ waiters' = waiters \cup back          \* waiters themselves re-register (wait_pubrel on try_again)
+       IN rearm' = rearm \cup {[p |-> all[i].p, m |-> all[i].m] : i \in {j \in DOMAIN all : all[j].t = "PUBCOMP"}}
     /\ up' = FALSE /\ b2c' = << >> /\ wr' = << >> /\ dlv' = FALSE /\ wq' = << >> /\ fast' = {}
     /\ faults' = faults + 1 /\ relUnanswered' = {}
-    /\ UNCHANGED stored
+    /\ UNCHANGED <<bst, pid, stored, waiters>>
     /\ hist' = Append(hist, [op |-> "fault", dlv |-> delivered])
 
-\* reconnect: Session Present 1 -> the broker retransmits what is unacknowledged, in order;
-\*            Session Present 0 -> both sides forget the exchanges in flight
+RECURSIVE RegisterAll(_, _)
+RegisterAll(ws, rs) == IF rs = {} THEN ws ELSE LET r == CHOOSE r \in rs : TRUE IN RegisterAll(Register(ws, r.p, r.m), rs \ {r})
+
+\* reconnect: Session Present 1 -> the broker retransmits what is unacknowledged, in order; the client's waits are
+\*            re-armed (resend_unanswered: try_again -> wait_pubrel)
+\*            Session Present 0 -> the broker forgets the exchanges in flight; update_session_state() drops the waits,
+\*            resend() re-arms those of the queued PUBCOMPs, and (fix F15) drops them again
 Reconnect(sp) ==
     /\ ~up
     /\ (sp = 0 => SessionLoss)
     /\ up' = TRUE
     /\ IF sp = 1
-         THEN /\ b2c' = [i \in 1..Cardinality({m \in Msgs : bst[m] \in {"sent", "rel"}}) |->
-                           LET ms == {m \in Msgs : bst[m] \in {"sent", "rel"}}
+         THEN /\ b2c' = [i \in 1..Cardinality(InFlight(bst)) |->
+                           LET ms == InFlight(bst)
                                m == CHOOSE x \in ms : Cardinality({y \in ms : y < x}) = i - 1
-                           IN [t |-> IF bst[m] = "sent" THEN "PUBLISH" ELSE "PUBREL", m |-> m]]
-              /\ UNCHANGED <<bst, waiters>>
+                           IN [t |-> IF bst[m] = "sent" THEN "PUBLISH" ELSE "PUBREL", m |-> m, p |-> pid[m]]]
+              /\ waiters' = RegisterAll(waiters, rearm)
+              /\ UNCHANGED bst
          ELSE /\ b2c' = << >>
               /\ bst' = [m \in Msgs |-> IF bst[m] \in {"sent", "rel"} THEN "lost" ELSE bst[m]]
-              /\ waiters' = {}                       \* update_session_state(): clear_pending_pubrels()
-    /\ UNCHANGED <<wr, dlv, wq, fast, stored, faults, relUnanswered>>
+              /\ waiters' = IF ClearAfterRequeue THEN {} ELSE RegisterAll({}, rearm)
+    /\ rearm' = {}
+    /\ UNCHANGED <<pid, wr, dlv, wq, fast, stored, faults, relUnanswered>>
     /\ hist' = Append(hist, [op |-> "reconnect", sp |-> sp])
 
-\* the broker sends the next message (in order)
+\* the broker sends the next message (in order), with the lowest identifier it is not using
 BrokerPublish(m) ==
     /\ up /\ bst[m] = "new" /\ \A k \in Msgs : k < m => bst[k] # "new"
+    /\ LET used == {pid[x] : x \in InFlight(bst)}
+           p == CHOOSE q \in Pids : q \notin used /\ \A r \in Pids : r < q => r \in used
+       IN /\ pid' = [pid EXCEPT ![m] = p]
+          /\ b2c' = Append(b2c, [t |-> "PUBLISH", m |-> m, p |-> p])
     /\ bst' = [bst EXCEPT ![m] = "sent"]
-    /\ b2c' = Append(b2c, [t |-> "PUBLISH", m |-> m])
-    /\ UNCHANGED <<up, wr, dlv, wq, waiters, fast, stored, faults, relUnanswered>>
+    /\ UNCHANGED <<up, wr, dlv, wq, waiters, rearm, fast, stored, faults, relUnanswered>>
     /\ hist' = Append(hist, [op |-> "bpub", m |-> m])
 
 Next ==
@@ -179,6 +213,8 @@ CompletedIsDelivered ==                                                         
     Quiet => \A m \in Msgs : bst[m] = "done" => IF QosOf[m] = 2 THEN stored[m] = 1 ELSE stored[m] >= 1
 NoPubrelUnanswered == Quiet => relUnanswered = {} /\ \A m \in Msgs : bst[m] # "rel"      \* C04_c
 NothingStuck == Quiet => \A m \in Msgs : bst[m] \in {"done", "lost"}                      \* C04_a (every PUBLISH acknowledged)
+\* a QoS 2 message reaches the application only through its own exchange (C04_d / C04_e)
+OnlyOwnRelease == \A m \in Msgs : QosOf[m] = 2 /\ stored[m] > 0 => bst[m] \in {"rel", "done"}
 \* model-guided scenarios: every state prints the environment history that led to it (one per state under VIEW NoHist)
 EmitScript == PrintT("SCRIPT " \o ToJson(hist))
 =============================================================================
